@@ -13,7 +13,10 @@ def ins_str(t):
 
 
 def step_sig(e):
-    t = e["pre"][e["pc"]]
+    if e.get("sparse") == 1:
+        t = next((c[1] for c in e["pre"] if c[0] == e["pc"]), [0, 0, 0, 0, 0, 0])
+    else:
+        t = e["pre"][e["pc"]]
     lim = "nolimit" if e["RL"] == e["M"] and e["WL"] == e["M"] else "limited"
     n = lambda tab, k: tab[k] if 0 <= k < len(tab) else "?"
     if e.get("panic"):
@@ -52,7 +55,7 @@ def reproduce_steps(ctx, mode, rejects, cap=40):
         e2 = read_line(re_file, 1)
         expect = [p for p in r["prints"] if p[0] == "EXPECT"]
         what = "executing %s at pc=%d on M=%d RL=%d WL=%d P=%d: observed queue %s diff %s%s" % (
-            ins_str(e["pre"][e["pc"]]), e["pc"], e["M"], e["RL"], e["WL"], e["P"], e2["q"],
+            ins_str(next((c[1] for c in e["pre"] if c[0] == e["pc"]), [0, 0, 0, 0, 0, 0]) if e.get("sparse") == 1 else e["pre"][e["pc"]]), e["pc"], e["M"], e["RL"], e["WL"], e["P"], e2["q"],
             [(a, ins_str(i)) for a, i in e2["d"]], (" panic=" + e2["panic"]) if e2["panic"] else "")
         ctx.violation(sig, what, dict(kind="step", mode=mode, event=e2, spec_expected=expect[0][1] if expect else None,
                                       others_with_same_signature=len(evs) - 1,
@@ -91,9 +94,9 @@ def check_C01(ctx):
     ctx.cov["trusted_base"] = ["harness/enc.go instruction table", "generic core diff in harness/steps.go", "TLC", "CommunityModules Json"]
     spec_step_model(ctx)
     if ctx.quick:
-        shards, st = gen_steps(ctx, ["-shards", 16, "-M", "5,8", "-reps", 3])
+        shards, st = gen_steps(ctx, ["-shards", 16, "-M", "5,8", "-reps", 3, "-big", "70001", "-bign", 48])
     else:
-        shards, st = gen_steps(ctx, ["-shards", 64, "-M", "3,5,7,8,11,16,32", "-reps", 6, "-exhaustive", "3,4"])
+        shards, st = gen_steps(ctx, ["-shards", 64, "-M", "3,5,7,8,11,16,32", "-reps", 6, "-exhaustive", "3,4", "-big", "70001,100003,300007", "-bign", 320])
         s2, st2 = gen_steps(ctx, ["-shards", 8, "-M", "8000", "-reps", 1], name="big")
         # big cores: only a sample of forms (files are large)
         shards += s2
